@@ -3403,7 +3403,14 @@ func (t *Topic) evictUser(uid types.Uid, unsub bool, skip string) {
 	for s := range t.sessions {
 		if pssd, removed := t.remSession(s, uid); pssd != nil {
 			if removed {
-				s.detachSession(t.name)
+				if s.isCluster() {
+					s.detachSession(t.name)
+				} else {
+					// Unlink right away. A queued detach request may be handled much later (a long
+					// polling session handles it at its next poll), possibly after the user has
+					// subscribed again, and would then remove the new link.
+					s.delSub(t.name)
+				}
 			}
 			if s.sid != skip {
 				s.queueOut(msg)
